@@ -1,11 +1,12 @@
 SPECIFICATION Spec
 CONSTANTS
-  Ns = {1, 2, 3, 4}
-  Vals = {1, 2, 3}
+  Ns = {5}
+  Vals = {1, 2}
   Primes = {2, 3}
+  SampleEvery = 1
   ThEvery = 1
   ThDefEvery = 1
-  ThDefMaxN = 3
+  ThDefMaxN = 0
 INVARIANT InvFlag
 INVARIANT InvChainComplex
 INVARIANT InvDefAlg
